@@ -310,19 +310,66 @@ theorem snd_mv {cx : LCtx} {p : Program} {n : Nat} (ih : Snd cx p n) :
           exact ih.mv rt sc _ rest s1 o1 b1 env log v hf.2 hr hrt henv
         · simp only [if_true, ROk])
 
-theorem endsDefaultP_cons_values {vs : List Expr} {rest : List Pat} (h : endsDefaultP (.values vs :: rest) = true) :
-    endsDefaultP rest = true := by
-  cases rest with
-  | nil => simp [endsDefaultP] at h
-  | cons r rs => simpa [endsDefaultP] using h
+/-- a certainly-hitting arm never answers "no match" -/
+theorem mv_hit {p : Program} {v : Val} : ∀ (vs : List Expr) (n : Nat) (env : Env) (log : Log), ArmHits v (.values vs) →
+    ∀ l, matchVals p n env log v vs ≠ .val false l
+  | [], _, _, _, h, _ => by
+    simp only [ArmHits] at h
+    rcases h with ⟨pe, _, _, hm, _⟩ | ⟨hm, _⟩ <;> cases hm
+  | pe :: rest, 0, _, _, _, _ => by simp [matchVals]
+  | pe :: rest, n + 1, env, log, h, l => by
+    have hrest : (∀ w x, bindingOf pe = some (w, x) → isWrap w v = false) → ¬(pe = .none ∧ v = .none) →
+        ArmHits v (.values rest) := by
+      intro h1 h2
+      simp only [ArmHits] at h ⊢
+      rcases h with ⟨pe', w, x, hm, hb, hw⟩ | ⟨hm, hv⟩
+      · rcases List.mem_cons.mp hm with rfl | hm'
+        · rw [h1 w x hb] at hw; cases hw
+        · exact Or.inl ⟨pe', w, x, hm', hb, hw⟩
+      · rcases List.mem_cons.mp hm with heq | hm'
+        · exact absurd ⟨heq.symm, hv⟩ h2
+        · exact Or.inr ⟨hm', hv⟩
+    simp only [matchVals]
+    cases hb : bindingOf pe with
+    | some wx =>
+      obtain ⟨w, x⟩ := wx
+      simp only
+      cases hw : isWrap w v
+      · simp only [Bool.false_eq_true, if_false]
+        apply mv_hit rest n env log (hrest ?_ ?_)
+        · intro w' x' hb'; rw [hb] at hb'; cases hb'; exact hw
+        · rintro ⟨rfl, _⟩; simp [bindingOf] at hb
+      · simp
+    | none =>
+      simp only
+      cases hr : evalExpr p n env log pe with
+      | val lit l1 =>
+        simp only
+        cases hq : v.beq lit
+        · simp only [Bool.false_eq_true, if_false]
+          apply mv_hit rest n env l1 (hrest ?_ ?_)
+          · intro w' x' hb'; rw [hb] at hb'; cases hb'
+          · rintro ⟨rfl, rfl⟩
+            cases n with
+            | zero => simp [evalExpr] at hr
+            | succ m =>
+              simp only [evalExpr, Res.val.injEq] at hr
+              obtain ⟨rfl, _⟩ := hr
+              simp [Val.beq] at hq
+        · simp
+      | ret _ _ => simp
+      | exit _ _ => simp
+      | ffiErr _ => simp
+      | stuck => simp
+      | oof => simp
 
 theorem snd_sel {cx : LCtx} {p : Program} {n : Nat} (ih : Snd cx p n) :
-    ∀ rt sc st pats pats' env log v k, PatsLow (cx.withRet rt) sc st pats pats' → endsDefaultP pats = true →
+    ∀ rt sc st pats pats' env log v k, PatsLow (cx.withRet rt) sc st pats pats' → Total v pats' →
     rt.neverFree = true → EnvOk p sc env →
     ROk (fun j => ∃ i pat, j = k + i ∧ pats'[i]? = some pat ∧ BindOk v pat) (FitV p rt) (selectArm p (n + 1) env log v pats' k) := by
-  intro rt sc st pats pats' env log v k hlow hend hrt henv
+  intro rt sc st pats pats' env log v k hlow htot hrt henv
   cases hlow with
-  | nil => simp [endsDefaultP] at hend
+  | nil => obtain ⟨pat, hm, _⟩ := htot; cases hm
   | @cons _ st' pat pat' bs rest rest' hpat hfp hrest =>
     cases pat with
     | default =>
@@ -336,7 +383,12 @@ theorem snd_sel {cx : LCtx} {p : Program} {n : Nat} (ih : Snd cx p n) :
       simp only [Prod.mk.injEq] at hq
       obtain ⟨rfl, rfl, rfl⟩ := hq
       simp only [fragPat, Bool.and_eq_true] at hfp
-      have hend' := endsDefaultP_cons_values hend
+      have htot' : ¬ ArmHits v (.values vs') → Total v rest' := by
+        intro hno
+        obtain ⟨pat, hm, hh⟩ := htot
+        rcases List.mem_cons.mp hm with rfl | hm'
+        · exact absurd hh hno
+        · exact ⟨pat, hm', hh⟩
       have hshift : ∀ r : Res Nat,
           ROk (fun j => ∃ i pat, j = (k + 1) + i ∧ rest'[i]? = some pat ∧ BindOk v pat) (FitV p rt) r →
           ROk (fun j => ∃ i pat, j = k + i ∧ (Pat.values vs' :: rest')[i]? = some pat ∧ BindOk v pat) (FitV p rt) r := by
@@ -347,13 +399,14 @@ theorem snd_sel {cx : LCtx} {p : Program} {n : Nat} (ih : Snd cx p n) :
       simp only [selectArm]
       rcases patVals_shape (p := p) hfp.2 hpv with ⟨_, hfb, _⟩ | ⟨pe, w, x, T, rfl, hbo, _, _, _⟩
       · have ihm := ih.mv rt sc st vs s1 vs' b1 env log v hfp.1 hpv hrt henv
-        res_cases ihm of matchVals _ _ _ _ _ _
+        generalize hmv : matchVals p n env log v vs' = r at ihm
+        cases r <;> (try simp only [ROk, FitV] at ihm ⊢) <;> (try exact ihm) <;> (try trivial)
         rename_i b l
         cases b
         · simp only []
-          exact hshift _ (ih.sel rt sc s1 rest rest' env l v (k + 1) hrest hend' hrt henv)
-        · simp only [ROk]
-          exact ⟨0, .values vs', rfl, rfl, by intro w x hwx; rw [hfb] at hwx; cases hwx⟩
+          exact hshift _ (ih.sel rt sc s1 rest rest' env l v (k + 1) hrest
+            (htot' (fun hh => mv_hit vs' n env log hh l hmv)) hrt henv)
+        · exact ⟨0, .values vs', rfl, rfl, by intro w x hwx; rw [hfb] at hwx; cases hwx⟩
       · cases n with
         | zero => simp [matchVals, ROk]
         | succ m =>
@@ -365,12 +418,16 @@ theorem snd_sel {cx : LCtx} {p : Program} {n : Nat} (ih : Snd cx p n) :
             simp only [firstBinding, hbo, Option.some.injEq, Prod.mk.injEq] at hwx
             obtain ⟨rfl, rfl⟩ := hwx; exact hw
           · simp only [hw, Bool.false_eq_true, if_false]
+            have hno : ¬ ArmHits v (.values [pe]) := by
+              simp only [ArmHits, List.mem_singleton]
+              rintro (⟨pe', w', x', rfl, hb', hw'⟩ | ⟨rfl, _⟩)
+              · rw [hbo] at hb'; cases hb'; exact hw hw'
+              · simp [bindingOf] at hbo
             cases m with
             | zero => simp [matchVals, ROk]
             | succ m' =>
               simp only [matchVals]
-              exact hshift _ (ih.sel rt sc s1 rest rest' env log v (k + 1) hrest hend' hrt henv)
-
+              exact hshift _ (ih.sel rt sc s1 rest rest' env log v (k + 1) hrest (htot' hno) hrt henv)
 
 /-! ## match arms -/
 
@@ -606,6 +663,171 @@ theorem armsS_get {cx : LCtx} {p : Program} {sc : Scopes} : ∀ (arms : List (Pa
         armsS_get (p := p) rest st1 _ _ i pat' body' hr hf.2 hi
       exact ⟨pat0, body0, sti, sti', bs0, sc0, scB0, h1, h2, h3,
         fun v hv => h4 v (lowerPat_mono hpat hf.1.1 v hv), h5, h6⟩
+
+
+/-! ## totality of the arm selection from the syntactic guarantee `patsTotal` -/
+
+theorem endsDefaultP_mem : ∀ (pats : List Pat), endsDefaultP pats = true → Pat.default ∈ pats
+  | [], h => by simp [endsDefaultP] at h
+  | [.default], _ => by simp
+  | [.values _], h => by simp [endsDefaultP] at h
+  | .default :: b :: rest, h => by simp
+  | .values _ :: b :: rest, h => by
+    simp only [endsDefaultP] at h
+    exact List.mem_cons_of_mem _ (endsDefaultP_mem (b :: rest) h)
+
+theorem patsLow_default {cx : LCtx} {sc : Scopes} : ∀ {st : Ty} {pats pats' : List Pat}, PatsLow cx sc st pats pats' →
+    Pat.default ∈ pats → Pat.default ∈ pats'
+  | _, _, _, .nil _, h => by cases h
+  | _, _, _, .cons (pat := pat) hpat _ hrest, h => by
+    rcases List.mem_cons.mp h with heq | h'
+    · subst heq
+      simp only [lowerPat, Option.some.injEq, Prod.mk.injEq] at hpat
+      obtain ⟨_, rfl, _⟩ := hpat
+      exact List.mem_cons_self ..
+    · exact List.mem_cons_of_mem _ (patsLow_default hrest h')
+
+theorem patsLow_mem {cx : LCtx} {p : Program} {sc : Scopes} {vs : List Expr} : ∀ {st : Ty} {pats pats' : List Pat},
+    PatsLow cx sc st pats pats' → Pat.values vs ∈ pats →
+    ∃ sti sti' vs' bs, Pat.values vs' ∈ pats' ∧ lowerPatValsE cx sc sti vs = some (sti', vs', bs) ∧
+      fragPat (.values vs) = true ∧ ∀ v, Fit p v st → Fit p v sti
+  | _, _, _, .nil _, h => by cases h
+  | st, _, _, .cons (pat := pat) hpat hfp hrest, h => by
+    rcases List.mem_cons.mp h with heq | h'
+    · subst heq
+      simp only [lowerPat, Option.map_eq_some_iff] at hpat
+      obtain ⟨⟨s1, vs', b1⟩, hpv, hq⟩ := hpat
+      simp only [Prod.mk.injEq] at hq
+      obtain ⟨rfl, rfl, rfl⟩ := hq
+      exact ⟨st, s1, vs', b1, List.mem_cons_self .., hpv, hfp, fun _ h => h⟩
+    · obtain ⟨sti, sti', vs', bs, hm, hl, hf, hmono⟩ := patsLow_mem (p := p) hrest h'
+      exact ⟨sti, sti', vs', bs, List.mem_cons_of_mem _ hm, hl, hf,
+        fun v hv => hmono v (lowerPat_mono hpat hfp v hv)⟩
+
+theorem patVals_none_mem {cx : LCtx} {sc : Scopes} : ∀ (vs : List Expr) (st stF : Ty) (vs' : List Expr) (bs : List (Nat × Ty)),
+    lowerPatValsE cx sc st vs = some (stF, vs', bs) → Expr.none ∈ vs → Expr.none ∈ vs'
+  | [], _, _, _, _, _, h => by cases h
+  | v :: vs, st, stF, vs', bs, hl, h => by
+    simp only [lowerPatValsE] at hl
+    split at hl
+    · split at hl
+      · cases hl
+      · rename_i v' vt hv
+        split at hl
+        · cases hl
+        · simp only [Option.map_eq_some_iff] at hl
+          obtain ⟨⟨s1, o1, b1⟩, hr, hq⟩ := hl
+          simp only [Prod.mk.injEq] at hq
+          obtain ⟨rfl, rfl, rfl⟩ := hq
+          rcases List.mem_cons.mp h with heq | h'
+          · subst heq
+            simp only [lowerExpr, Option.some.injEq, Prod.mk.injEq] at hv
+            rw [← hv.1]; exact List.mem_cons_self ..
+          · exact List.mem_cons_of_mem _ (patVals_none_mem vs _ _ _ _ hr h')
+    · rename_i hnl
+      rcases List.mem_cons.mp h with heq | h'
+      · subst heq; simp [isLiteral] at hnl
+      · split at hl
+        all_goals (try (cases hl; done))
+        all_goals (
+          simp only [Option.map_eq_some_iff] at hl
+          obtain ⟨⟨s1, o1, b1⟩, hr, hq⟩ := hl
+          simp only [Prod.mk.injEq] at hq
+          obtain ⟨rfl, rfl, rfl⟩ := hq
+          exact List.mem_cons_of_mem _ (patVals_none_mem vs _ _ _ _ hr h'))
+
+/-- an arm that contains a binding pattern (in the fragment: only that pattern) -/
+theorem bind_arm_inv {cx : LCtx} {sc : Scopes} {vs : List Expr} {sti sti' : Ty} {vs' : List Expr} {bs : List (Nat × Ty)}
+    {w : WrapType} (hl : lowerPatValsE cx sc sti vs = some (sti', vs', bs)) (hf : fragPat (.values vs) = true)
+    (hb : hasBindPat w (.values vs) = true) :
+    ∃ pe x, vs' = [pe] ∧ bindingOf pe = some (w, x) ∧
+      (w = .Some → ∃ it, sti = .optional it) ∧ (w ≠ .Some → ∃ a b, sti = .result a b) := by
+  simp only [hasBindPat, List.any_eq_true] at hb
+  obtain ⟨pe, hm, hpe⟩ := hb
+  cases hbo : bindingOf pe with
+  | none => rw [hbo] at hpe; cases hpe
+  | some wx =>
+    obtain ⟨w', x⟩ := wx
+    rw [hbo] at hpe
+    simp only [beq_iff_eq] at hpe; subst hpe
+    simp only [fragPat, Bool.and_eq_true, Bool.or_eq_true, decide_eq_true_eq] at hf
+    have hlen : vs.length ≤ 1 := by
+      rcases hf.2 with h | h
+      · exact h
+      · have := List.all_eq_true.mp h pe hm
+        rw [hbo] at this; cases this
+    match vs, hm, hlen, hl with
+    | [pe0], hm, _, hl =>
+      simp only [List.mem_singleton] at hm; subst hm
+      have hnl : isLiteral pe = false := by
+        cases hlit : isLiteral pe
+        · rfl
+        · rw [lit_src_binding hlit] at hbo; cases hbo
+      simp only [lowerPatValsE, hnl, Bool.false_eq_true, if_false] at hl
+      split at hl
+      all_goals (try (cases hl; done))
+      all_goals (
+        simp only [Option.map_some, Option.some.injEq, Prod.mk.injEq] at hl
+        obtain ⟨rfl, rfl, rfl⟩ := hl
+        simp only [bindingOf, Option.some.injEq, Prod.mk.injEq] at hbo
+        obtain ⟨rfl, rfl⟩ := hbo
+        exact ⟨_, _, rfl, rfl, by first | exact fun _ => ⟨_, rfl⟩ | (intro h; cases h),
+          by first | exact fun _ => ⟨_, _, rfl⟩ | (intro h; exact absurd rfl h)⟩)
+    | _ :: _ :: _, _, hlen, _ => simp at hlen
+
+theorem fit_result_cases {p : Program} {v : Val} {a b : Ty} (h : Fit p v (.result a b)) :
+    (∃ w, v = .ok w) ∨ (∃ w, v = .err w) := by
+  have := h.1
+  cases v <;> simp [Val.fitsType] at this
+  · exact Or.inl ⟨_, rfl⟩
+  · exact Or.inr ⟨_, rfl⟩
+
+theorem total_of_frag {cx : LCtx} {p : Program} {sc : Scopes} {st : Ty} {pats pats' : List Pat}
+    (hlow : PatsLow cx sc st pats pats') (htot : patsTotal pats = true) {v : Val} (hv : Fit p v st) : Total v pats' := by
+  simp only [patsTotal, Bool.or_eq_true, Bool.and_eq_true, List.any_eq_true] at htot
+  rcases htot with (hd | ⟨⟨p1, hm1, hn⟩, ⟨p2, hm2, hs⟩⟩) | ⟨⟨p1, hm1, hok⟩, ⟨p2, hm2, herr⟩⟩
+  · exact ⟨.default, patsLow_default hlow (endsDefaultP_mem pats hd), trivial⟩
+  · cases p1 with
+    | default => simp [hasNonePat] at hn
+    | values vs1 =>
+    cases p2 with
+    | default => simp [hasBindPat] at hs
+    | values vs2 =>
+    obtain ⟨sti1, _, vs1', _, hmem1, hl1, _, _⟩ := patsLow_mem (p := p) hlow hm1
+    obtain ⟨sti2, _, vs2', _, hmem2, hl2, hf2, hmono2⟩ := patsLow_mem (p := p) hlow hm2
+    obtain ⟨pe, x, rfl, hbo, hopt, _⟩ := bind_arm_inv hl2 hf2 hs
+    obtain ⟨it, rfl⟩ := hopt rfl
+    have hnone : Expr.none ∈ vs1 := by
+      simp only [hasNonePat, List.any_eq_true] at hn
+      obtain ⟨e, he, hq⟩ := hn
+      cases e <;> simp at hq
+      exact he
+    rcases fit_optional (hmono2 v hv) with rfl | ⟨w, rfl, _⟩
+    · exact ⟨_, hmem1, Or.inr ⟨patVals_none_mem _ _ _ _ _ hl1 hnone, rfl⟩⟩
+    · exact ⟨_, hmem2, Or.inl ⟨pe, .Some, x, List.mem_singleton.mpr rfl, hbo, rfl⟩⟩
+  · cases p1 with
+    | default => simp [hasBindPat] at hok
+    | values vs1 =>
+    cases p2 with
+    | default => simp [hasBindPat] at herr
+    | values vs2 =>
+    obtain ⟨sti1, _, vs1', _, hmem1, hl1, hf1, hmono1⟩ := patsLow_mem (p := p) hlow hm1
+    obtain ⟨sti2, _, vs2', _, hmem2, hl2, hf2, _⟩ := patsLow_mem (p := p) hlow hm2
+    obtain ⟨pe1, x1, rfl, hbo1, _, hres1⟩ := bind_arm_inv hl1 hf1 hok
+    obtain ⟨pe2, x2, rfl, hbo2, _, _⟩ := bind_arm_inv hl2 hf2 herr
+    obtain ⟨a, b, rfl⟩ := hres1 (by intro h; cases h)
+    rcases fit_result_cases (hmono1 v hv) with ⟨w, rfl⟩ | ⟨w, rfl⟩
+    · exact ⟨_, hmem1, Or.inl ⟨pe1, .Ok, x1, List.mem_singleton.mpr rfl, hbo1, rfl⟩⟩
+    · exact ⟨_, hmem2, Or.inl ⟨pe2, .Err, x2, List.mem_singleton.mpr rfl, hbo2, rfl⟩⟩
+
+theorem patsOfE_map (arms : List (Pat × Expr)) : patsOfE arms = arms.map (·.1) := by
+  induction arms with
+  | nil => rfl
+  | cons a rest ih => obtain ⟨pt, e⟩ := a; simp [patsOfE, ih]
+theorem patsOfS_map (arms : List (Pat × List Stmt)) : patsOfS arms = arms.map (·.1) := by
+  induction arms with
+  | nil => rfl
+  | cons a rest ih => obtain ⟨pt, e⟩ := a; simp [patsOfS, ih]
 
 
 theorem snd_e {cx : LCtx} {p : Program} {n : Nat} (hC : Ctx cx p) (ih : Snd cx p n) :
@@ -906,7 +1128,7 @@ theorem snd_e {cx : LCtx} {p : Program} {n : Nat} (hC : Ctx cx p) (ih : Snd cx p
     res_cases ihs of evalExpr _ _ _ _ _
     rename_i v l
     have hpl := armsE_patsLow arms st0 none stF (some ty) arms' harms hfa
-    have ihsel := ih.sel rt sc st0 _ _ env l v 0 hpl (endsDefaultE_P arms hend) hrt henv
+    have ihsel := ih.sel rt sc st0 _ _ env l v 0 hpl (total_of_frag hpl (by rw [← patsOfE_map]; exact hend) ihs) hrt henv
     res_cases ihsel of selectArm _ _ _ _ _ _ _
     rename_i j l'
     obtain ⟨i, pat', rfl, hi, hbind⟩ := ihsel
@@ -1064,7 +1286,7 @@ theorem snd_s {cx : LCtx} {p : Program} {n : Nat} (hC : Ctx cx p) (ih : Snd cx p
     res_cases ihs of evalExpr _ _ _ _ _
     rename_i v l
     have hpl := armsS_patsLow arms st0 stF arms' harms hfa
-    have ihsel := ih.sel rt sc st0 _ _ env l v 0 hpl (endsDefaultS_P arms hend) hrt henv
+    have ihsel := ih.sel rt sc st0 _ _ env l v 0 hpl (total_of_frag hpl (by rw [← patsOfS_map]; exact hend) ihs) hrt henv
     res_cases ihsel of selectArm _ _ _ _ _ _ _
     rename_i j l'
     obtain ⟨i, pat', rfl, hi, hbind⟩ := ihsel
